@@ -301,8 +301,8 @@ MSG_RULE = ("BFS over histories of {pub by 4 users (one with forged sender heade
             "channel-enabled group (owner and member attached under the group name, two channel readers - one with two sessions - under the "
             "channel name, a stranger): publishes incl. by readers, reader attach / leave / unsubscribe, notes from members and readers, "
             "history reads, reload. suspended (C03): BFS to depth 5 / 7 over {member publishes to a group / p2p topic, root suspends / re-activates "
-            "the owner, reload, re-attach, typing note}. suspend-at-load (C03): for every store call of the load of a group / p2p topic, the root's "
-            "suspension / re-activation of the owner handled completely right before that call (the loader is held); the member's publish "
+            "the owner, reload, re-attach, typing note}. suspend-at-load (C03): for every store-call boundary and atomic operation performed while a group / p2p topic is loaded, the root's "
+            "suspension / re-activation of the owner handled completely at that point (the goroutine there is held); the member's publish "
             "afterwards is refused iff the owner is suspended. sys (C02, C03; also a part of C07): BFS to depth 3 / 5 over publishes / attach attempts / history reads on 'sys' by an "
             "ordinary, an anonymous-level, two root users and a connection which has not logged in. races (C02, C03): all schedules up to the "
             "deviation bound of the C14 collision scenarios which contain a publish: no session receives a message twice or out of order. "
